@@ -11,6 +11,7 @@ From CG Require Import Spec.Choice.
 From CGgen Require Import Consts.
 From CG Require Import Model.Regex.
 From CG Require Import Model.Subset.
+From CG Require Import Spec.Lang.
 (* add new Require lines above this line *)
 Require Import ExtrOcamlBasic ExtrOcamlString.
 Extraction Language OCaml.
@@ -36,5 +37,7 @@ Separate Extraction
   Subset.pick_first
   Subset.pick_last
   Subset.pick_script
+  Lang.equiv_dfa_expr
+  Lang.equiv_wdfa_expr
   (* add new roots above this line *)
   Prelude.pow2.
